@@ -298,6 +298,10 @@ fn depth_sweeps(res: &mut Res, max_pow: u32) {
                     if local.fails.len() > before {
                         // stop this family at the first non rows|error outcome; shorten the stored statement
                         if let Some(last) = local.fails.last_mut() {
+                            // whether the first failure of a family shows as a wall-limit hang or as a stack
+                            // overflow depends on timing: one class for both
+                            last.0 = last.0.replace("C15|hang|", "C15|depth-limit|").replace("C15|abort|", "C15|depth-limit|");
+                            last.1.observed = format!("{} [n = {n}]", last.1.observed);
                             last.1.note = format!("depth family {name}, n = {n} (reached n = {reached} cleanly)");
                             if let Some(st) = last.1.steps.last_mut() {
                                 if st.1.len() > 4000 {
